@@ -138,6 +138,18 @@ impl Sut for VClock<A> {
         self.apply(op.clone());
         t.call("vclock.apply", &[before, sx(op), sx(self)]);
     }
+    fn apply_quiet(&mut self, op: &Self::Op) {
+        self.apply(op.clone());
+    }
+    fn same(&self, o: &Self) -> bool {
+        guard(|| self == o).unwrap_or(false)
+    }
+    fn reads_sx(&self) -> String {
+        sx(self)
+    }
+    fn merge_quiet(&mut self, o: &Self) {
+        self.merge(o.clone());
+    }
     fn merge_logged(&mut self, o: &Self, t: &mut Out) {
         let before = sx(self);
         self.merge(o.clone());
@@ -227,6 +239,18 @@ impl Sut for GCounter<A> {
         self.apply(op.clone());
         t.call("gcounter.apply", &[before, sx(op), sx(self)]);
     }
+    fn apply_quiet(&mut self, op: &Self::Op) {
+        self.apply(op.clone());
+    }
+    fn same(&self, o: &Self) -> bool {
+        guard(|| self == o).unwrap_or(false)
+    }
+    fn reads_sx(&self) -> String {
+        format!("{} {}", self.read(), sx(self))
+    }
+    fn merge_quiet(&mut self, o: &Self) {
+        self.merge(o.clone());
+    }
     fn merge_logged(&mut self, o: &Self, t: &mut Out) {
         let before = sx(self);
         self.merge(o.clone());
@@ -282,6 +306,18 @@ impl Sut for PNCounter<A> {
         self.apply(op.clone());
         t.call("pncounter.apply", &[before, sx(op), sx(self)]);
     }
+    fn apply_quiet(&mut self, op: &Self::Op) {
+        self.apply(op.clone());
+    }
+    fn same(&self, o: &Self) -> bool {
+        guard(|| self == o).unwrap_or(false)
+    }
+    fn reads_sx(&self) -> String {
+        self.read().to_string()
+    }
+    fn merge_quiet(&mut self, o: &Self) {
+        self.merge(o.clone());
+    }
     fn merge_logged(&mut self, o: &Self, t: &mut Out) {
         let before = sx(self);
         self.merge(o.clone());
@@ -326,6 +362,18 @@ impl Sut for GSet<u64> {
         let before = sx(self);
         self.apply(*op);
         t.call("gset.apply", &[before, op.to_string(), sx(self)]);
+    }
+    fn apply_quiet(&mut self, op: &Self::Op) {
+        self.apply(op.clone());
+    }
+    fn same(&self, o: &Self) -> bool {
+        guard(|| self == o).unwrap_or(false)
+    }
+    fn reads_sx(&self) -> String {
+        sx(&self.read())
+    }
+    fn merge_quiet(&mut self, o: &Self) {
+        self.merge(o.clone());
     }
     fn merge_logged(&mut self, o: &Self, t: &mut Out) {
         let before = sx(self);
@@ -372,7 +420,19 @@ macro_rules! reg_sut {
                 self.apply(*op);
                 t.call(concat!($name, ".apply"), &[before, op.to_string(), sx(self)]);
             }
-            fn merge_logged(&mut self, o: &Self, t: &mut Out) {
+            fn apply_quiet(&mut self, op: &Self::Op) {
+        self.apply(op.clone());
+    }
+    fn same(&self, o: &Self) -> bool {
+        guard(|| self == o).unwrap_or(false)
+    }
+    fn reads_sx(&self) -> String {
+        self.read().to_string()
+    }
+    fn merge_quiet(&mut self, o: &Self) {
+        self.merge(o.clone());
+    }
+    fn merge_logged(&mut self, o: &Self, t: &mut Out) {
                 let before = sx(self);
                 self.merge(o.clone());
                 t.call(concat!($name, ".merge"), &[before, sx(o), sx(self)]);
@@ -426,6 +486,18 @@ impl Sut for LWWReg<u64, u64> {
         t.call("lww.validate_op", &[before.clone(), sx(op), v.into()]);
         self.apply(op.clone());
         t.call("lww.apply", &[before, sx(op), sx(self)]);
+    }
+    fn apply_quiet(&mut self, op: &Self::Op) {
+        self.apply(op.clone());
+    }
+    fn same(&self, o: &Self) -> bool {
+        guard(|| self == o).unwrap_or(false)
+    }
+    fn reads_sx(&self) -> String {
+        sx(self)
+    }
+    fn merge_quiet(&mut self, o: &Self) {
+        self.merge(o.clone());
     }
     fn merge_logged(&mut self, o: &Self, t: &mut Out) {
         let before = sx(self);
@@ -543,6 +615,18 @@ impl Sut for Orswot<u64, A> {
         self.apply(op.clone());
         t.call("orswot.apply", &[before, sx(op), sx(self)]);
     }
+    fn apply_quiet(&mut self, op: &Self::Op) {
+        self.apply(op.clone());
+    }
+    fn same(&self, o: &Self) -> bool {
+        guard(|| self == o).unwrap_or(false)
+    }
+    fn reads_sx(&self) -> String {
+        orswot_reads(self)
+    }
+    fn merge_quiet(&mut self, o: &Self) {
+        self.merge(o.clone());
+    }
     fn merge_logged(&mut self, o: &Self, t: &mut Out) {
         let before = sx(self);
         t.call("orswot.validate_merge", &[before.clone(), sx(o), vm_sx(self.validate_merge(o))]);
@@ -626,6 +710,18 @@ impl Sut for MVReg<u64, A> {
         self.apply(op.clone());
         t.call("mvreg.apply", &[before, sx(op), sx(self)]);
     }
+    fn apply_quiet(&mut self, op: &Self::Op) {
+        self.apply(op.clone());
+    }
+    fn same(&self, o: &Self) -> bool {
+        guard(|| self == o).unwrap_or(false)
+    }
+    fn reads_sx(&self) -> String {
+        mvreg_reads(self)
+    }
+    fn merge_quiet(&mut self, o: &Self) {
+        self.merge(o.clone());
+    }
     fn merge_logged(&mut self, o: &Self, t: &mut Out) {
         let before = sx(self);
         self.merge(o.clone());
@@ -672,7 +768,7 @@ type MapOr = Map<u64, Orswot<u64, A>, A>;
 type MapMM = Map<u64, Map<u64, MVReg<u64, A>, A>, A>;
 
 macro_rules! map_sut {
-    ($ty:ident, $name:expr, $leaf_edit:expr, $raw_leaf:expr) => {
+    ($ty:ident, $name:expr, $leaf_edit:expr, $raw_leaf:expr, $leaf_reads:expr) => {
         impl Sut for $ty {
             type Op = map::Op<u64, <$ty as MapInfo>::V, A>;
             const NAME: &'static str = $name;
@@ -745,7 +841,19 @@ macro_rules! map_sut {
                 self.apply(op.clone());
                 t.call(concat!($name, ".apply"), &[before, sx(op), sx(self)]);
             }
-            fn merge_logged(&mut self, o: &Self, t: &mut Out) {
+            fn apply_quiet(&mut self, op: &Self::Op) {
+        self.apply(op.clone());
+    }
+    fn same(&self, o: &Self) -> bool {
+        guard(|| self == o).unwrap_or(false)
+    }
+    fn reads_sx(&self) -> String {
+        map_reads(self, &$leaf_reads)
+    }
+    fn merge_quiet(&mut self, o: &Self) {
+        self.merge(o.clone());
+    }
+    fn merge_logged(&mut self, o: &Self, t: &mut Out) {
                 let before = sx(self);
                 t.call(concat!($name, ".validate_merge"), &[before.clone(), sx(o), vm_sx(self.validate_merge(o))]);
                 t.call(concat!($name, ".validate_merge"), &[sx(o), before.clone(), vm_sx(o.validate_merge(self))]);
@@ -887,9 +995,9 @@ fn raw_mm(a: &mut Args) -> map::Op<u64, MVReg<u64, A>, A> {
         map::Op::Up { dot: Dot::new(a.below(4), a.below(5)), key: a.below(2), op: raw_mv(a) }
     }
 }
-map_sut!(MapMV, "mapmv", leaf_mv, raw_mv);
-map_sut!(MapOr, "mapor", leaf_or, raw_or);
-map_sut!(MapMM, "mapmm", leaf_mm, raw_mm);
+map_sut!(MapMV, "mapmv", leaf_mv, raw_mv, mvreg_reads);
+map_sut!(MapOr, "mapor", leaf_or, raw_or, orswot_reads);
+map_sut!(MapMM, "mapmm", leaf_mm, raw_mm, mapmv_reads);
 
 // ---------------------------------------------------------------- GList / List
 impl Sut for GList<u64> {
@@ -938,6 +1046,18 @@ impl Sut for GList<u64> {
         let before = sx(self);
         self.apply(op.clone());
         t.call("glist.apply", &[before, sx(op), sx(self)]);
+    }
+    fn apply_quiet(&mut self, op: &Self::Op) {
+        self.apply(op.clone());
+    }
+    fn same(&self, o: &Self) -> bool {
+        guard(|| self == o).unwrap_or(false)
+    }
+    fn reads_sx(&self) -> String {
+        sx(self)
+    }
+    fn merge_quiet(&mut self, o: &Self) {
+        self.merge(o.clone());
     }
     fn merge_logged(&mut self, o: &Self, t: &mut Out) {
         let before = sx(self);
@@ -1068,6 +1188,24 @@ impl Sut for List<u64, A> {
             None => t.call("list.apply", &[before, sx(op), "panic".into()]),
         }
     }
+    fn apply_quiet(&mut self, op: &Self::Op) {
+        let mut s2 = self.clone();
+        if let Some(s2) = guard(move || {
+            s2.apply(op.clone());
+            s2
+        }) {
+            *self = s2;
+        }
+    }
+    fn same(&self, o: &Self) -> bool {
+        guard(|| self == o).unwrap_or(false)
+    }
+    fn reads_sx(&self) -> String {
+        list_reads(self)
+    }
+    fn merge_quiet(&mut self, o: &Self) {
+        let _ = o;
+    }
     fn merge_logged(&mut self, _o: &Self, _t: &mut Out) {}
     fn reads(&self, a: &mut Args, t: &mut Out) {
         let v: Vec<u64> = self.read::<Vec<&u64>>().into_iter().cloned().collect();
@@ -1131,6 +1269,18 @@ impl Sut for MR {
         self.apply(op.clone());
         t.call("merkle.apply", &[before, sx(op), sx(&op.hash()), sx(self)]);
     }
+    fn apply_quiet(&mut self, op: &Self::Op) {
+        self.apply(op.clone());
+    }
+    fn same(&self, o: &Self) -> bool {
+        guard(|| self == o).unwrap_or(false)
+    }
+    fn reads_sx(&self) -> String {
+        merkle_reads(self)
+    }
+    fn merge_quiet(&mut self, o: &Self) {
+        self.merge(o.clone());
+    }
     fn merge_logged(&mut self, o: &Self, t: &mut Out) {
         let before = sx(self);
         self.merge(o.clone());
@@ -1163,4 +1313,38 @@ impl Sut for MR {
     fn op_actor(_op: &Self::Op) -> Option<u64> {
         None
     }
+}
+
+// ---------------------------------------------------------------- canonical reads
+pub fn orswot_reads(s: &Orswot<u64, A>) -> String {
+    let r = s.read();
+    let mut ms: Vec<(u64, String)> = s.iter().map(|c| (*c.val, sx(&c.rm_clock))).collect();
+    ms.sort();
+    format!("orswot add={} rm={} members={:?}", sx(&r.add_clock), sx(&r.rm_clock), ms)
+}
+pub fn mvreg_reads(s: &MVReg<u64, A>) -> String {
+    let r = s.read();
+    let mut v = r.val.clone();
+    v.sort();
+    format!("mvreg add={} rm={} vals={:?}", sx(&r.add_clock), sx(&r.rm_clock), v)
+}
+pub fn map_reads<V: map::Val<A>>(s: &Map<u64, V, A>, leaf: &dyn Fn(&V) -> String) -> String {
+    let mut es: Vec<(u64, String, String)> = s.iter().map(|c| (*c.val.0, sx(&c.rm_clock), leaf(c.val.1))).collect();
+    es.sort();
+    let r = s.read_ctx();
+    format!("map add={} rm={} len={} entries={:?}", sx(&r.add_clock), sx(&r.rm_clock), s.len().val, es)
+}
+pub fn mapmv_reads(s: &Map<u64, MVReg<u64, A>, A>) -> String {
+    map_reads(s, &mvreg_reads)
+}
+pub fn list_reads(s: &List<u64, A>) -> String {
+    let v: Vec<u64> = s.read::<Vec<&u64>>().into_iter().cloned().collect();
+    let ids: Vec<String> = s.iter_entries().map(|(i, _)| sx(i)).collect();
+    format!("list {:?} {:?}", v, ids)
+}
+pub fn merkle_reads(s: &MR) -> String {
+    let r = s.read();
+    let mut all: Vec<merkle_reg::Hash> = s.all_nodes().map(|n| n.hash()).collect();
+    all.sort();
+    format!("merkle heads={} nodes={} orphans={} dag={}", sx(&r.hashes()), s.num_nodes(), s.num_orphans(), sx(&all))
 }
